@@ -2,13 +2,16 @@
 # Runs the pinned suite (hooks OFF) on /repo (or $1) and reports stable_pass tests that did not pass.
 export GOFLAGS=-mod=mod GOPROXY=off GOSUMDB=off GOTOOLCHAIN=local
 D="${1:-/repo}"
-cd "$D" && go test -json -vet=off -count=1 -timeout 25m ./... 2>&1 > /root/.cache/baseline_run.json
+OUT=$(mktemp /root/.cache/baseline_run.XXXXXX.json)
+export OUT
+trap 'rm -f "$OUT"' EXIT
+cd "$D" && go test -json -vet=off -count=1 -timeout 25m ./... 2>&1 > "$OUT"
 python3 - <<'PY'
-import json
+import json, os
 base=json.load(open('/root/.vp/BASELINE.json'))
 want=set(base['stable_pass'])
 passed=set()
-for l in open('/root/.cache/baseline_run.json'):
+for l in open(os.environ['OUT']):
     try: e=json.loads(l)
     except: continue
     if e.get('Action')=='pass' and e.get('Test'):
